@@ -562,6 +562,7 @@ int main(int argc, char** argv) {
 	Explorer<FSM> ex(opt);
 	ex.props = Explorer<FSM>::propsFromString(opt.prop);
 	ex.propsConfigured = ex.props;
+	Engine<FSM>::G().hiddenInKey = (ex.props & Explorer<FSM>::P_C11) != 0;
 #ifdef VT_COUNT_ALLOCS
 	{	// self-test of the allocation interposers: an allocation inside the counting window must be seen, one outside must not
 		void* volatile sink = nullptr;
